@@ -104,15 +104,25 @@ FieldAt(j) ==
 NullChainAt(j) ==
   Item("nullchain", MkDoc([Default("legacy", <<36, j>>) EXCEPT !["chainId"] = IF j = 1 THEN NNull ELSE Absent]), j)
 
+\* every character U+0001..U+00FF in the place of the first digit of a hexadecimal and of a decimal quantity string
+NEveryChar == 2 * 255
+EveryCharAt(j) ==
+  LET cp == 1 + ((j - 1) % 255)
+      sl == Slots[1 + (j % Len(Slots))]
+      base == Default(sl[1], <<33, j % 5>>)
+      txt == IF j <= 255 THEN "0x" \o CpsToStr(<<cp>>) \o "1" ELSE CpsToStr(<<cp>>) \o "1"
+  IN  Item("every_character", MkDoc([base EXCEPT ![sl[2]] = NStr(txt)]), j)
 O1 == NIntDocs
 O2 == O1 + NMalformed
 O3 == O2 + NFields
-Count == O3 + 2
+O4 == O3 + 2
+Count == O4 + NEveryChar
 ItemAt(g) ==
   IF g <= O1 THEN IntDocAt(g)
   ELSE IF g <= O2 THEN MalformedAt(g - O1)
   ELSE IF g <= O3 THEN FieldAt(g - O2)
-  ELSE NullChainAt(g - O3)
+  ELSE IF g <= O4 THEN NullChainAt(g - O3)
+  ELSE EveryCharAt(g - O4)
 VARIABLE n
 INSTANCE GenBase
 =============================================================================
